@@ -21,28 +21,28 @@ import (
 // nothing behind), C18 (restart / reconnect).
 
 type envRec struct {
-	Idx      int    `json:"idx"`
-	Wf       string `json:"workflow"`
-	ID       string `json:"id"`
-	Created  bool   `json:"created"`
-	CreateErr string `json:"create_err,omitempty"`
-	Destroyed bool  `json:"destroyed"`
-	DestroyErr string `json:"destroy_err,omitempty"`
-	Keep     bool   `json:"keep_tasks,omitempty"`
-	owned    map[string]bool // task ids ever seen owned by it
+	Idx                                        int             `json:"idx"`
+	Wf                                         string          `json:"workflow"`
+	ID                                         string          `json:"id"`
+	Created                                    bool            `json:"created"`
+	CreateErr                                  string          `json:"create_err,omitempty"`
+	Destroyed                                  bool            `json:"destroyed"`
+	DestroyErr                                 string          `json:"destroy_err,omitempty"`
+	Keep                                       bool            `json:"keep_tasks,omitempty"`
+	owned                                      map[string]bool // task ids ever seen owned by it
 	createdAtSeq, destroyReqSeq, destroyRetSeq int
-	inc      int
+	inc                                        int
 }
 
 type fault struct {
-	Kind   string `json:"kind"`
-	Victim string `json:"victim_role"`
-	Critical bool `json:"victim_critical"`
-	AtMs   int    `json:"at_ms_after_ready"`
-	During string `json:"during,omitempty"`
-	firedAt time.Duration
+	Kind     string `json:"kind"`
+	Victim   string `json:"victim_role"`
+	Critical bool   `json:"victim_critical"`
+	AtMs     int    `json:"at_ms_after_ready"`
+	During   string `json:"during,omitempty"`
+	firedAt  time.Duration
 	firedSeq int
-	taskID string
+	taskID   string
 }
 
 type obs struct {
@@ -55,16 +55,16 @@ type obs struct {
 }
 
 type multi struct {
-	c     *hk.Ctx
-	s     *sys
-	sc    *scenario
-	prop  string
-	mu    simsync.Mutex
-	envs  []*envRec
-	wfs   map[string]*wfSpec
-	specByClass map[string]*taskSpec
-	obs   []*obs
-	faults []*fault
+	c            *hk.Ctx
+	s            *sys
+	sc           *scenario
+	prop         string
+	mu           simsync.Mutex
+	envs         []*envRec
+	wfs          map[string]*wfSpec
+	specByClass  map[string]*taskSpec
+	obs          []*obs
+	faults       []*fault
 	noMoreFaults bool
 }
 
@@ -772,9 +772,44 @@ func (m *multi) runC18() {
 	for n := range m.wfs {
 		wfName = n
 	}
-	mode := []string{"crash", "reconnect"}[c.W(2, "mode")]
+	mode := []string{"crash", "reconnect", "reconnect-during-creation"}[c.W(3, "mode")]
 	m.sc.Notes = append(m.sc.Notes, "mode="+mode)
 	firstFw := ""
+	if mode == "reconnect-during-creation" {
+		// the connection to the master breaks at a drawn instant while an environment is being
+		// created (tasks launched, staging, starting): nothing else goes wrong in this run, so a
+		// KILL of one of its tasks before the deployment timeout can only come from the
+		// reconciliation that follows the re-subscription
+		dropAfter := time.Duration(c.F(5000, "drop-at-ms")) * time.Millisecond
+		var e *envRec
+		done := make(chan struct{})
+		c.S.GoInc(m.rpc().inc, "client", func() {
+			e = m.newEnv(wfName)
+			close(done)
+		})
+		simrt.Sleep(dropAfter)
+		dropSeq := m.s.mesos.Seq()
+		startedAt := c.S.Now() - dropAfter
+		c.Count("fault.subscription_dropped_during_creation")
+		m.s.mesos.DropSubscription()
+		simrt.Recv(done)
+		simrt.Sleep(30 * time.Second)
+		m.dumpCalls()
+		c.NonTrivial = true
+		c.State(fmt.Sprintf("reconnect-during-creation created=%v", e.Created))
+		limit := startedAt + time.Duration(m.wfs[wfName].DeployTimeout)*time.Second - time.Second
+		for _, k := range m.s.mesos.CallsOfType("KILL") {
+			if k.Seq <= dropSeq || k.At >= limit {
+				continue
+			}
+			for _, tid := range k.Tasks {
+				if st := m.s.mesos.Task(tid); st != nil {
+					m.viol("C18", "reconnect-kills-owned", "kill-during-creation:"+st.Mesos.String(), "after a mere reconnection at %v (creation started at %v) task %s, launched for the environment being created, received a KILL at %v; creation returned %q", startedAt+dropAfter, startedAt, tid, k.At, e.CreateErr)
+				}
+			}
+		}
+		return
+	}
 	if mode == "crash" {
 		// the core dies at a drawn instant of the environment's life
 		crashAfter := time.Duration(c.F(6000, "crash-at-ms")) * time.Millisecond
